@@ -510,6 +510,23 @@ func (s *session) execOp(f []string) (string, bool) {
 		}); p {
 			return "panic", true
 		}
+		// distribution: frames in which one image stands twice at one origin in two sizes (the terminal-table oracle
+		// does not judge a case from such a frame on: Props.C20Term.keyfun_needed)
+		if next, _, _ := s.kvx.VerifPlacements(); true {
+			clash := false
+			for i, p := range next {
+				for _, q := range next[:i] {
+					if p[0] == q[0] && p[1] == q[1] && p[2] == q[2] && (p[3] != q[3] || p[4] != q[4]) {
+						clash = true
+					}
+				}
+			}
+			if clash {
+				s.r.Count("frame-with-one-image-twice-at-one-origin-in-two-sizes")
+			} else {
+				s.r.Count("frame-key-functional")
+			}
+		}
 		return parseGfx(s.kfc.Take()) + s.snap(), true
 	}
 	return "", false
